@@ -59,6 +59,7 @@ def run_c19(tier, seed, replay=None):
     problems = []
     rng = random.Random(seed)
     names = sorted(os.listdir(FIX)) if os.path.isdir(FIX) else []
+    all_names = list(names)
     if replay:
         names = [json.load(open(replay)).get("fixture")]
     for name in names:
@@ -73,8 +74,13 @@ def run_c19(tier, seed, replay=None):
             if t and t[0] == "accepted":
                 accepted.setdefault(int(t[1]), []).append(t[2])
         tmp = tempfile.mkdtemp(prefix="c19-", dir=CACHE)
+        # the operator's directory has a name of the operator's choosing (characters that mean something in a URI, a
+        # query string, a percent-escape; non-ASCII): it is the directory the pinned release wrote
+        DIRNAMES = ["data", "tss#1", "sync?", "backup%20of%20data", "a&b=c;d", "d\u00e4t\u00e4-dir", "file:x?mode=ro"]
+        di = (all_names.index(name) if name in all_names else 0) + seed
+        dn1, dn2 = DIRNAMES[di % len(DIRNAMES)], DIRNAMES[(di + 3) % len(DIRNAMES)]
         try:
-            shutil.copytree(os.path.join(d, "data"), os.path.join(tmp, "data"))
+            shutil.copytree(os.path.join(d, "data"), os.path.join(tmp, dn1))
             ops = [f"loadstate {d}/ids.txt", "dumpall"]
             for c in clients:
                 ops += [f"walk {c}", f"gs {c}"]
@@ -94,8 +100,8 @@ def run_c19(tier, seed, replay=None):
             ops += ["dumpall", "rows"]
             text = f"case {name}\n" + "\n".join(ops) + "\nend\n"
             p = subprocess.run([binp, "lib", "sqlite"], input=text, capture_output=True, text=True,
-                               env=dict(ENV, TSS_KEEP_DIR=os.path.join(tmp, "data"), VERIF_SEED=str(seed)), timeout=1200)
-            case = Case(f"fixture-{name}", ops, {"fixture": name})
+                               env=dict(ENV, TSS_KEEP_DIR=os.path.join(tmp, dn1), VERIF_SEED=str(seed)), timeout=1200)
+            case = Case(f"fixture-{name}", ops, {"fixture": name, "directory_name": dn1})
             out.evaluations += 1
             msgs = []
             if p.returncode != 0:
@@ -155,8 +161,8 @@ def run_c19(tier, seed, replay=None):
                 okb, srv, blog = build.build_server_bin()
                 if not okb:
                     raise RuntimeError("server binary build failed\n" + blog)
-                shutil.copytree(os.path.join(d, "data"), os.path.join(tmp, "data2"))
-                d2 = os.path.join(tmp, "data2")
+                shutil.copytree(os.path.join(d, "data"), os.path.join(tmp, "bin", dn2))
+                d2 = os.path.join(tmp, "bin", dn2)
                 ops2 = [f"loadstate {d}/ids.txt", f"bootdir {d2}"]
                 nreq = 0
                 for c in clients:
@@ -170,7 +176,7 @@ def run_c19(tier, seed, replay=None):
                 text2 = f"case {name}-bin\n" + "\n".join(ops2) + "\nend\n"
                 p2 = subprocess.run([binp, "bin"], input=text2, capture_output=True, text=True,
                                     env=dict(ENV, TSS_SERVER_BIN=srv, VERIF_SEED=str(seed)), timeout=1200)
-                case2 = Case(f"fixture-{name}-bin", ops2, {"fixture": name, "bin": True}, mode="bin")
+                case2 = Case(f"fixture-{name}-bin", ops2, {"fixture": name, "bin": True, "directory_name": dn2}, mode="bin")
                 out.evaluations += 1
                 new2 = parse_trace(p2.stdout)
                 msgs2 = []
